@@ -9,7 +9,9 @@ use rsdd::builder::cache::AllIteTable;
 use crate::cnfgen::*;
 use rsdd::builder::decision_nnf::{DecisionNNFBuilder, StandardDecisionNNFBuilder};
 use rsdd::builder::{BottomUpBuilder, TopDownBuilder};
-use rsdd::repr::VarOrder;
+use rsdd::repr::{SddPtr, VarOrder};
+use rsdd::builder::sdd::CompressionSddBuilder;
+use crate::sddstream::{exec_sdd, gen_vtree};
 use rsdd::constants::primes;
 use rsdd::repr::{create_semantic_hash_map, BddPtr, DDNNFPtr, VarLabel, WmcParams};
 use rsdd::util::semirings::{FiniteField, RealSemiring};
@@ -269,9 +271,146 @@ fn rebuild_bdd<'a>(
     panic!("derived target not found")
 }
 
+
+fn sdd_all_clear(pool: &[SddPtr]) -> bool {
+    fn walk(p: SddPtr) -> bool {
+        match p {
+            SddPtr::PtrTrue | SddPtr::PtrFalse | SddPtr::Var(..) => true,
+            SddPtr::BDD(_) | SddPtr::ComplBDD(_) => p.is_scratch_cleared() && walk(p.low_raw_sdd()) && walk(p.high_raw_sdd()),
+            SddPtr::Reg(_) | SddPtr::Compl(_) => p.is_scratch_cleared() && p.node_iter().all(|a| walk(a.prime()) && walk(a.sub())),
+        }
+    }
+    pool.iter().all(|p| walk(*p))
+}
+
+trait RawSdd<'a> {
+    fn low_raw_sdd(&self) -> SddPtr<'a>;
+    fn high_raw_sdd(&self) -> SddPtr<'a>;
+}
+impl<'a> RawSdd<'a> for SddPtr<'a> {
+    fn low_raw_sdd(&self) -> SddPtr<'a> {
+        match self {
+            SddPtr::BDD(b) | SddPtr::ComplBDD(b) => b.low(),
+            _ => *self,
+        }
+    }
+    fn high_raw_sdd(&self) -> SddPtr<'a> {
+        match self {
+            SddPtr::BDD(b) | SddPtr::ComplBDD(b) => b.high(),
+            _ => *self,
+        }
+    }
+}
+
+fn answer_sdd(d: SddPtr, n: usize, q: &Q) -> String {
+    match q {
+        Q::W(w) => {
+            let mut m = HashMap::new();
+            for (i, (l, h)) in w.iter().enumerate() {
+                m.insert(
+                    VarLabel::new_usize(i),
+                    (FiniteField::<{ primes::U64_LARGEST }>::new(*l), FiniteField::<{ primes::U64_LARGEST }>::new(*h)),
+                );
+            }
+            d.unsmoothed_wmc(&WmcParams::new(m)).value().to_string()
+        }
+        Q::R(w) => {
+            let mut m = HashMap::new();
+            for (i, k) in w.iter().enumerate() {
+                m.insert(VarLabel::new_usize(i), (RealSemiring(1.0 - *k as f64 / 8.0), RealSemiring(*k as f64 / 8.0)));
+            }
+            f64_exact(d.unsmoothed_wmc(&WmcParams::new(m)).0)
+        }
+        Q::E(a) => {
+            let inst: Vec<bool> = (0..n).map(|x| (a >> x) & 1 == 1).collect();
+            (d.evaluate(&inst) as u8).to_string()
+        }
+        Q::N => d.count_nodes().to_string(),
+        _ => "unsupported".to_string(),
+    }
+}
+
+/// SDD variant: diagrams of one compressing SDD builder (the largest pool entries and their
+/// negations, which share every node), queries of several result types with several weight
+/// maps; after every call every scratch slot reachable from any of them must be empty
+fn sdd_query_line(rng: &mut Rng, maxvars: usize, maxops: usize) -> String {
+    let n = rng.range(3, std::cmp::max(maxvars, 4) as u64) as usize;
+    let nops = rng.range(8, maxops as u64) as usize;
+    let prog = gen_program_x(rng, n, nops, false, true);
+    let vt = gen_vtree(rng, n);
+    let nq = rng.range(5, 14) as usize;
+    let qs: Vec<(usize, bool, Q)> = (0..nq)
+        .map(|_| {
+            let q = match rng.below(8) {
+                0 | 1 | 2 => Q::W((0..n).map(|_| (rng.below(5) as u128, rng.below(5) as u128)).collect()),
+                3 | 4 => Q::R((0..n).map(|_| rng.below(9)).collect()),
+                5 => Q::E(rng.below(1 << n) as usize),
+                _ => Q::N,
+            };
+            (rng.below(3) as usize, rng.coin(), q)
+        })
+        .collect();
+    let head = format!(
+        "query kind=sdd n={} vtree={} ops={} qs={}",
+        n,
+        vt.print(),
+        prog.ops.iter().map(|o| o.print()).collect::<Vec<_>>().join("|"),
+        qs.iter().map(|(i, neg, q)| format!("{}{}:{}", if *neg { "-" } else { "" }, i, q.print())).collect::<Vec<_>>().join(",")
+    );
+    let r = guarded(|| {
+        rsdd::verif_hooks::set_table_capacity(Some(8));
+        let pick = |pool: &[SddPtr]| -> Vec<usize> {
+            let mut by_size: Vec<(usize, usize)> = pool.iter().enumerate().map(|(i, p)| (p.count_nodes(), i)).collect();
+            by_size.sort_by(|a, b| b.cmp(a));
+            let mut picks: Vec<usize> = Vec::new();
+            for (_, i) in by_size {
+                if picks.len() < 3 && !picks.iter().any(|&j| pool[j] == pool[i]) {
+                    picks.push(i);
+                }
+            }
+            while picks.len() < 3 {
+                picks.push(picks[0]);
+            }
+            picks
+        };
+        let b = CompressionSddBuilder::new(vt.to_vtree());
+        let pool = exec_sdd(&b, &prog.ops);
+        let picks = pick(&pool);
+        let mut watched: Vec<SddPtr> = Vec::new();
+        for &i in picks.iter() {
+            watched.push(pool[i]);
+            watched.push(pool[i].neg());
+        }
+        let tt = |p: SddPtr| -> String {
+            (0..(1usize << n)).map(|a| { let inst: Vec<bool> = (0..n).map(|x| (a >> x) & 1 == 1).collect(); if p.evaluate(&inst) { '1' } else { '0' } }).collect()
+        };
+        let mut ans = Vec::new();
+        let mut tts = Vec::new();
+        let mut clear = String::new();
+        for (i, neg, q) in qs.iter() {
+            let d = if *neg { pool[picks[*i]].neg() } else { pool[picks[*i]] };
+            ans.push(answer_sdd(d, n, q));
+            clear.push(if sdd_all_clear(&watched) { '1' } else { '0' });
+            tts.push(tt(d));
+        }
+        let mut fresh = Vec::new();
+        for (i, neg, q) in qs.iter() {
+            let fb = CompressionSddBuilder::new(vt.to_vtree());
+            let fpool = exec_sdd(&fb, &prog.ops);
+            let fp = pick(&fpool);
+            let d = if *neg { fpool[fp[*i]].neg() } else { fpool[fp[*i]] };
+            fresh.push(answer_sdd(d, n, q));
+        }
+        format!("ans={} fresh={} clear={} tts={}", ans.join("|"), fresh.join("|"), clear, tts.join("|"))
+    });
+    format!("{} => {}", head, r.unwrap_or_else(|e| e))
+}
+
 pub fn query_line(rng: &mut Rng, maxvars: usize, maxops: usize) -> String {
-    if rng.chance(1, 4) {
-        return dnnf_query_line(rng, maxvars);
+    match rng.below(8) {
+        0 | 1 => return dnnf_query_line(rng, maxvars),
+        2 | 3 => return sdd_query_line(rng, maxvars, maxops),
+        _ => {}
     }
     let n = rng.range(2, maxvars as u64) as usize;
     let nops = rng.range(6, maxops as u64) as usize;
